@@ -110,6 +110,17 @@ class RunState:
         self.failures.append((clause, message, detail))
         raise StopRun()
 
+    def must(self, clause, what, fn, *a, **k):
+        """run a system call the property requires to succeed; an exception is a failure of `clause`"""
+        try:
+            return fn(*a, **k)
+        except StopRun:
+            raise
+        except BaseException as e:
+            if type(e).__name__.startswith("Sim") or isinstance(e, (KeyboardInterrupt, SystemExit)) and not type(e).__name__.startswith("Sim"):
+                raise
+            self.fail(clause, f"{what} raised {type(e).__name__}: {e}")
+
     def obs(self, *parts):
         self.log.append("|".join(str(p) for p in parts))
 
